@@ -248,7 +248,7 @@ pub fn run(ctx: &mut Ctx) {
     for (n, ok) in r2::selftest() {
         ctx.selftest(&n, ok);
     }
-    ctx.require(&["annex_kat", "honest_keys_equal", "step2_rejects_invalid_RA", "step3_rejects", "step4_rejects", "klen=1", "klen=16", "klen=200", "kind=OffCurve", "kind=Negated", "kind=OtherPoint", "kind=BitFlipHash", "kind=PermutedHash", "klen_needs_more_than_255_kdf_blocks", "honest_R_rerandomised_representation", "id_non_ascii_utf8", "key_from_gen_keypair", "key_with_jacobian_public_point", "degenerate_dA_shared_point_infinity_at_B", "degenerate_dB_shared_point_infinity_at_A"]);
+    ctx.require(&["annex_kat", "honest_keys_equal", "step2_rejects_invalid_RA", "step3_rejects", "step4_rejects", "klen=1", "klen=16", "klen=200", "kind=OffCurve", "kind=Negated", "kind=OtherPoint", "kind=BitFlipHash", "kind=PermutedHash", "klen_needs_more_than_255_kdf_blocks", "honest_R_rerandomised_representation", "id_non_ascii_utf8", "key_from_gen_keypair", "key_with_jacobian_public_point", "degenerate_dA_shared_point_infinity_at_B", "degenerate_dB_shared_point_infinity_at_A", "coincident_dA_P_eq_xbarR_doubling_at_B", "coincident_dB_P_eq_xbarR_doubling_at_A"]);
     for s in 0..16 {
         ctx.required.push(format!("subset={:04b}", s));
     }
@@ -345,6 +345,24 @@ pub fn run(ctx: &mut Ctx) {
                 } else {
                     case.db = d;
                     ctx.class("degenerate_dB_shared_point_infinity_at_A");
+                }
+                case.subset = 0;
+            }
+        }
+        // coincident static keys: d = +xbar(R) r mod n makes P = [xbar]R, so the peer's P + [xbar]R is a DOUBLING of two
+        // different Jacobian representations of one point; the shared point is ordinary and the honest run must succeed
+        if i % 25 == 11 || i % 25 == 23 {
+            let for_a = i % 25 == 11;
+            let r = if for_a { case.ra.clone() } else { case.rb.clone() };
+            let rp = r2::mul(&r, &r2::g()).unwrap();
+            let d = (r2::xbar(&rp.0) * &r) % &c.n;
+            if !d.is_zero() && d < &c.n - 1u32 {
+                if for_a {
+                    case.da = d;
+                    ctx.class("coincident_dA_P_eq_xbarR_doubling_at_B");
+                } else {
+                    case.db = d;
+                    ctx.class("coincident_dB_P_eq_xbarR_doubling_at_A");
                 }
                 case.subset = 0;
             }
